@@ -12,3 +12,8 @@ def roundtrip_norm_phys(vec, mode):
 def roundtrip_phys_norm(vec, mode):
     vec.scale_to_phys(mode)
     vec.scale_to_norm(mode)
+
+
+def scale_then_unscale(self, vec):
+    self._apply_vec_scaling(vec)
+    self._apply_vec_unscaling(vec)
